@@ -25,6 +25,9 @@ RULE = (
     "on the same terms; non-trivial = subset with >=1 omitted defaulted property; distinct = "
     "canon(recipe, subset)"
 )
+RULE += (
+    ' Parsed mode (half of the cases; a quarter of those through the documented loader) also compares the default of every parsed property with the one written in the document (nested literals included).'
+)
 ASSUMPTIONS = [
     "conversion of a value is observed through the property's own element called alone (differential inside the library, as the statement is phrased)",
     "'no value' = the NotPassed marker for element instances (Element.__call__ has no parameter default) and Cls() for classes",
@@ -66,7 +69,7 @@ def cases(draw):
             sch = R.to_schema(trial, idx)
             el.setdefault("kw", {})["default"] = draw(instance_of(sch if isinstance(sch, dict) else {}))
         else:
-            el.setdefault("kw", {})["default"] = draw(jv.json_values(max_leaves=3))
+            el.setdefault("kw", {})["default"] = draw(st.one_of(jv.json_values(max_leaves=3), jv.json_values(max_leaves=3), jv.nested_literals()))
     if root_kind == "Object" and draw(st.integers(0, 4)) == 0:
         root["kw"]["default"] = draw(st.one_of(st.just({}), jv.json_values(max_leaves=3)))
     if root_kind == "Object" and draw(st.integers(0, 3)) == 0 and gen.class_names:
@@ -87,8 +90,8 @@ def cases(draw):
     for p in (R.flat_class(root, idx)[2] if root_kind == "Object" else root["props"]):
         sch = R.to_schema(p["element"], idx)
         supplied[p["name"]] = draw(instance_of(sch if isinstance(sch, dict) else {}))
-    mode = draw(st.sampled_from(["dsl", "dsl", "parsed"])) if root_kind == "Object" else draw(st.sampled_from(["dsl", "parsed"]))
-    return {"mode": mode, "recipe": root, "supplied": supplied}
+    mode = draw(st.sampled_from(["dsl", "parsed"]))
+    return {"mode": mode, "recipe": root, "supplied": supplied, "pipeline": draw(st.sampled_from(observe.PIPELINES))}
 
 
 @st.composite
@@ -139,7 +142,7 @@ def shared_doc_predicate(case, stats):
 
 def build(case):
     if case["mode"] == "parsed":
-        parsed = observe.safe_parse(R.to_schema(case["recipe"]))
+        parsed = observe.safe_parse(R.to_schema(case["recipe"]), case.get("pipeline"))
         return parsed[1] if parsed[0] == "ok" else None
     return R.build(case["recipe"])
 
@@ -224,6 +227,25 @@ def predicate(case, stats):
         alone = observe.verdict(props[name].element, value)
         if alone[0] == "ok":
             suppliable.append((src, name, value, observe.plain(alone[1])))
+    if case["mode"] == "parsed":
+        # "the default its schema declares" is the one in the DOCUMENT: the parser must hand it on unaltered
+        # (whatever the loading pipeline wrote into the document's dicts)
+        idx_r = R.index(case["recipe"])
+        for rp in recipe_props:
+            src = rp["source"] if rp.get("source") is not None else rp["name"]
+            name = by_source.get(src)
+            if name is None:
+                continue
+            node = rp["element"] if "kind" in rp["element"] else idx_r[rp["element"]["ref"]]
+            kw_eff = R.flat_class(node, idx_r)[0] if node.get("base") and node["kind"] == "Object" else node.get("kw", {})
+            want = kw_eff.get("default", NotPassed())
+            have_d = getattr(props[name].element, "default", NotPassed())
+            # (a property schema WITHOUT a default of its own may still end up with one: a one-member composition
+            # collapses to its member, default included - nothing in the statement forbids that)
+            if not isinstance(want, NotPassed) and (isinstance(have_d, NotPassed) or not json_identical(have_d, want)):
+                fails.append({"sub": "declared", "kind": "parsed-default-differs-from-declared", "property": name,
+                              "declared": repr(want)[:200], "parsed": repr(have_d)[:200],
+                              "pipeline": case.get("pipeline", "plain")})
     declared = [(src, name) for src, name in by_source.items()]
     for r in range(len(suppliable) + 1):
         for subset in itertools.combinations(suppliable, r):
